@@ -6,6 +6,7 @@ import Knx.TunnelText
 import Knx.RouterText
 import Knx.Sock
 import Knx.CloseOnce
+import Knx.RouterBatch
 import Knx.Buf
 
 namespace Driver
@@ -125,7 +126,10 @@ def runLine (line : String) : String :=
   match line.splitOn " " with
   | [] => "bad-op"
   | "tun" :: _ => (Knx.Tun.runScript line).getD "bad-op"
-  | "rtr" :: _ => (Knx.Rtr.runScript line).getD "bad-op"
+  | "rtr" :: _ =>
+    -- scripts with per-telegram socket failures run on the batch model (pause-free, idle client)
+    if (line.splitOn "failpid").length > 1 then (Knx.RtrF.runScript line).getD "bad-op"
+    else (Knx.Rtr.runScript line).getD "bad-op"
   | "crt" :: args => (runClosers args).getD "bad-op"
   | op :: args =>
     match runWire op args with
